@@ -28,6 +28,47 @@ FO = "tangelo/toolboxes/ansatz_generator/fermionic_operators.py"
 PEN = "tangelo/toolboxes/ansatz_generator/penalty_terms.py"
 OPS = "tangelo/toolboxes/operators/operators.py"
 GUCC = "tangelo/toolboxes/ansatz_generator/_general_unitary_cc.py"
+
+
+def check_adapt_word_angles(idx: Index, rep: Report):
+    """ADAPT writes every Pauli word of a pool operator as its own rotation; the state stays in the particle-number and spin sector only if the words of one
+    operator rotate by +theta or -theta according to the sign the operator gives them (pairs such as XY - YX conserve the number of particles, XY + YX or
+    unequal angles do not).  ADAPTAnsatz is folded as a class, restarted from two signed operators and built with several parameter vectors - the all-zero
+    vector included -: the angle of the k-th variational gate is sign(coefficient of the k-th word) * theta of its operator."""
+    from ..consteval import Raised, Undecidable
+    from ..rules.circuitsem import module_resolver
+    from .C07 import _QOpM, _class_folder, _method, _same_angle
+    rule = "K9.adapt-word-signs"
+    AD = "tangelo/toolboxes/ansatz_generator/adapt_ansatz.py"
+    cls = module_resolver(idx, AD)("ADAPTAnsatz")
+    if cls is None:
+        raise AnalysisError("ADAPTAnsatz class not resolvable")
+    bf = idx.function(f"{AD}::ADAPTAnsatz.build_circuit")
+    op1 = {((0, "X"), (1, "Y")): 1.0, ((0, "Y"), (1, "X")): -1.0}
+    op2 = {((2, "Y"), (0, "X"), (1, "X"), (3, "X")): -1.0, ((2, "X"), (0, "X"), (1, "X"), (3, "Y")): 1.0, ((2, "X"), (0, "Y"), (1, "Y"), (3, "Y")): -1.0}
+    want_sign = [1.0, -1.0, -1.0, 1.0, -1.0]
+    owner = [0, 0, 1, 1, 1]
+    n = 0
+    for vec in ([0.3, -0.4], [0.0, 0.0], None, [0.0, 0.25]):
+        label = f"restarted from two operators, build_circuit({vec})"
+        try:
+            a = _class_folder(idx, AD).instantiate(cls, [4, 2, 0], {"ansatz_options": {"operators": [_QOpM(op1), _QOpM(op2)], "reference_state": "zero"}})
+            _class_folder(idx, AD).call_funcval(_method(idx, a, "build_circuit", AD), [] if vec is None else [list(vec)], {})
+        except Undecidable as e:
+            raise AnalysisError(f"ADAPTAnsatz.build_circuit not foldable: {e}")
+        except Raised as e:
+            n += 1
+            rep.violation(rule, bf, bf.node, text=label, what="a restarted ADAPT ansatz builds for every parameter vector", reason=f"raises {e.exc_type}")
+            continue
+        theta = [0.0, 0.0] if vec is None else vec
+        angles = [x[3] for x in a.fields["circuit"].signature() if x[4]]
+        ok = len(angles) == len(want_sign) and all(_same_angle(g, sg * theta[o]) for g, sg, o in zip(angles, want_sign, owner))
+        n += 1
+        rep.decide(ok, rule, bf, bf.node, text=f"ADAPT {label}: {len(angles)} variational rotations",
+                   what="each Pauli word of an ADAPT operator rotates by sign(coefficient) * theta of its operator - zero when theta is zero -, which keeps the prepared "
+                        "state in the reference particle-number and spin sector",
+                   reason=f"angles {[float(x) if not hasattr(x, 'free_symbols') else x for x in angles]}, expected {[sg * theta[o] for sg, o in zip(want_sign, owner)]}")
+    rep.floor("ADAPT parameter vectors folded", n, 4)
 MT = "tangelo/toolboxes/qubit_mappings/mapping_transform.py"
 SV = "tangelo/toolboxes/qubit_mappings/statevector_mapping.py"
 
@@ -68,6 +109,7 @@ def run(idx: Index, rep: Report, tier: str):
     check_reordering(idx, rep)
     check_spin_source(idx, rep)
     check_pool_conservation(idx, rep, tier)
+    check_adapt_word_angles(idx, rep)
     # "for all parameter values": a parameter vector also reaches the circuit through update_var_params; the particle-conserving structure is that
     # of the *built* circuit, so the updated circuit has to be the built one (necessary condition, decided as in C07)
     from . import C07
